@@ -17,7 +17,6 @@ import (
 	col "github.com/craterdog/go-collection-framework/v4/collection"
 	stc "strconv"
 	sts "strings"
-	utf "unicode/utf8"
 )
 
 // CLASS ACCESS
@@ -618,10 +617,12 @@ func (v *parser_) parseIntrinsic() (
 	_, token, ok = v.parseToken(RuneToken, "")
 	if ok {
 		var matches = Scanner().MatchToken(RuneToken, token.GetValue())
-		var match string
-		match, err = stc.Unquote(matches.GetValue(1))
+		var match = matches.GetValue(1)
+		// NOTE: The value of a rune is the value of its (possibly escaped)
+		// character.  Unquoting it to a string first would turn '\xe9' into
+		// the single byte 0xe9, which is not a valid UTF-8 encoded rune.
+		intrinsic, _, _, err = stc.UnquoteChar(match[1:len(match)-1], '\'')
 		v.checkLiteral(token, err)
-		intrinsic, _ = utf.DecodeRuneInString(match)
 		return intrinsic, token, true
 	}
 	_, token, ok = v.parseToken(StringToken, "")
